@@ -1,10 +1,14 @@
 package main
 
 import (
+	"bytes"
 	"encoding/json"
 	"flag"
 	"fmt"
 	"os"
+	"os/exec"
+	"strings"
+	"sync"
 	"time"
 )
 
@@ -54,6 +58,7 @@ func cmdRun(args []string) {
 	thorough := fs.Bool("thorough", false, "")
 	verbose := fs.Bool("v", false, "")
 	save := fs.String("save", "", "")
+	nowall := fs.Bool("nowall", false, "")
 	fs.Parse(args)
 	t0 := time.Now()
 	g, _ := oneRun(*seed, *prop, *run, *thorough, *verbose)
@@ -62,7 +67,11 @@ func cmdRun(args []string) {
 			fmt.Println(l)
 		}
 	}
-	fmt.Printf("run %d: ops=%d steps=%d blocks=%d txs=%d wall=%v digest=%s\n", *run, len(g.ops), g.x.stats.Steps, g.x.stats.Blocks, g.x.stats.Txs, time.Since(t0), g.x.cur.Digest()[:16])
+	wall := time.Since(t0)
+	if *nowall {
+		wall = 0
+	}
+	fmt.Printf("run %d: ops=%d steps=%d blocks=%d txs=%d wall=%v digest=%s\n", *run, len(g.ops), g.x.stats.Steps, g.x.stats.Blocks, g.x.stats.Txs, wall, g.x.cur.Digest()[:16])
 	for _, k := range sortedIntKeys(g.x.stats.C) {
 		fmt.Printf("  %s=%d\n", k, g.x.stats.C[k])
 	}
@@ -112,4 +121,69 @@ func cmdReplay(args []string) {
 	os.Exit(1)
 }
 
-func cmdSelfDet(args []string) {}
+
+// selftest-determinism: the same (seed, property, run) executed in several fresh processes under different
+// GOMAXPROCS must produce byte-identical event logs, violations and final digests.
+func cmdSelfDet(args []string) {
+	fs := flag.NewFlagSet("selftest-determinism", flag.ExitOnError)
+	n := fs.Int("n", 64, "number of (property, run) pairs")
+	seed := fs.Int64("seed", 7, "")
+	reps := fs.Int("reps", 3, "processes per pair")
+	fs.Parse(args)
+	self, _ := os.Executable()
+	props := []string{"C01", "C02", "C03", "C04", "C05", "C06", "C07", "C08", "C09", "C10", "C11", "C12", "C13", "C14", "C15", "C16", "C17", "C18", "C19", "C20"}
+	procs := []string{"1", "4", "16", "2", "8"}
+	type job struct {
+		prop string
+		run  int
+	}
+	jobs := make(chan job)
+	var mu sync.Mutex
+	bad := 0
+	done := 0
+	var wg sync.WaitGroup
+	for w := 0; w < 16; w++ {
+		wg.Add(1)
+		go func() {
+			defer wg.Done()
+			for j := range jobs {
+				var first []byte
+				for r := 0; r < *reps; r++ {
+					cmd := exec.Command(self, "run", "-prop", j.prop, "-seed", fmt.Sprint(*seed), "-run", fmt.Sprint(j.run), "-v", "-nowall")
+					cmd.Env = append(os.Environ(), "GOMAXPROCS="+procs[r%len(procs)])
+					out, _ := cmd.CombinedOutput()
+					if r == 0 {
+						first = out
+					} else if !bytes.Equal(first, out) {
+						mu.Lock()
+						bad++
+						fmt.Printf("NONDETERMINISM property=%s run=%d: process %d (GOMAXPROCS=%s) differs from process 0\n%s\n", j.prop, j.run, r, procs[r%len(procs)], firstLineDiff(first, out))
+						mu.Unlock()
+					}
+				}
+				mu.Lock()
+				done++
+				mu.Unlock()
+			}
+		}()
+	}
+	for i := 0; i < *n; i++ {
+		jobs <- job{props[i%len(props)], i / len(props)}
+	}
+	close(jobs)
+	wg.Wait()
+	fmt.Printf("selftest-determinism: %d (property, run) pairs x %d processes, GOMAXPROCS in %v: %d mismatches\n", done, *reps, procs[:minInt(*reps, len(procs))], bad)
+	if bad > 0 {
+		os.Exit(2)
+	}
+}
+
+func firstLineDiff(a, b []byte) string {
+	la, lb := strings.Split(string(a), "\n"), strings.Split(string(b), "\n")
+	for i := 0; i < len(la) && i < len(lb); i++ {
+		if la[i] != lb[i] {
+			return fmt.Sprintf("line %d:\n  %s\n  %s", i, la[i], lb[i])
+		}
+	}
+	return fmt.Sprintf("lengths %d vs %d lines", len(la), len(lb))
+}
